@@ -55,6 +55,10 @@ type Model struct {
 	validatorAccept map[string]bool
 	spawns []Spawn
 	mustBlockMemo map[*ssa.Function]bool
+	rfOnStack map[*ssa.Function]bool
+	rpMemo map[string][]map[string]Lit
+	justDepth int
+	onceRoots map[*ssa.Function]bool
 	la      *LockAnalysis
 
 	problems []string
